@@ -15,4 +15,6 @@ CATALOGUE = [
     ('mutant', SM, "        sjp1 = sj_mask - Fj / Fpj", "        sjp1 = sj_mask + Fj / Fpj", 'C19.normal', 'Newton step sign'),
     ('variant', SM, "    rnorm = _multi_dot(r, r)\n", "    rnorm = _multi_dot(r, r) * 1.0\n", '', 'reflect normalisation spelled differently'),
     ('variant', SM, "    first_term = np.sqrt(1 - musq * (1 - cosIsq))[:, np.newaxis] * r\n    second_term = mu * (S - cosI[:, np.newaxis] * r)\n    return first_term + second_term", "    k = np.sqrt(1 - musq + musq * cosIsq) - mu * cosI\n    return mu * S + k[:, np.newaxis] * r", '', 'refract in the compact textbook form'),
+    ('variant', SM, '        delta = abs(sjp1 - sj_mask)\n', '        delta = np.abs(sjp1 - sj_mask)\n', '', 'newton: np.abs'),
+    ('variant', SM, '        if surf.R is None:\n            Rt = None\n        else:\n            # transformation matrix has inverse which is its transpose\n            Rt = surf.R.T\n', '        Rt = None\n        if surf.R is not None:\n            Rt = surf.R.T\n', '', 'raytrace: Rt reset at the top of each pass'),
 ]
